@@ -53,5 +53,6 @@ def buildOld : Prog → BState → Option BState
       let B4 ← popScopeOld B3 B.sigs.length
       let B5 ← popScopeOld B4 B.sigs.length
       buildOld k B5
+  | .istmt _ _, _ => none
 
 end Gatery.C05
